@@ -107,6 +107,10 @@ func runC09(r *Run) {
 	}
 	compress := t.Draw(2) == 1
 	preDelay := []time.Duration{0, time.Second, 7 * time.Second}[t.Draw(3)]
+	// a bystander: another caller whose own short context ends while the call is in progress
+	by := t.Weighted(50, 25, 25) // none, Ping(ctx 1 s), Write(ctx 1 s)
+	byDelay := []time.Duration{0, 300 * time.Millisecond, 4500 * time.Millisecond}[t.Draw(3)]
+	zeroWindow := t.Pct(50)
 
 	o := RawOpts{LibClient: role == 1}
 	if compress {
@@ -129,7 +133,12 @@ func runC09(r *Run) {
 			sig += ",cut=payload"
 		}
 	}
+	if by != 0 {
+		sig += ",by=" + []string{"", "ping", "write"}[by]
+	}
 	r.Class = sig
+	r.D("bystander", []string{"none", "ping", "write"}[by])
+	r.D("bystander_delay", byDelay.String())
 	r.D("role_lib_client", o.LibClient)
 	r.D("adversary", c09Adv[adv])
 	r.D("k", k)
@@ -145,6 +154,9 @@ func runC09(r *Run) {
 
 	if adv == 7 || st == 5 {
 		rc.Lib.Out().Cap = 4096
+		if adv == 7 && st != 5 && zeroWindow {
+			rc.Lib.Out().Cap = 0 // the very first byte the library writes blocks
+		}
 		rc.Lib.Out().HardCap = true
 	}
 	never := time.Duration(-1)
@@ -162,6 +174,7 @@ func runC09(r *Run) {
 	callStarted := false
 	var t0, t1 time.Duration = never, never
 	var crDone, crStart time.Duration = never, never
+	var byStart, byEnd time.Duration = never, never
 	_ = crStart
 
 	// ---- setup traffic from the peer (before the adversary's bytes)
@@ -284,6 +297,22 @@ func runC09(r *Run) {
 		})
 	}
 
+	if by != 0 && call != 2 {
+		r.S.Go("bystander", func() {
+			r.S.ParkE("a.by.wait", func() bool { return callStarted }, nil)
+			r.S.Sleep(byDelay)
+			byStart = r.S.Now()
+			ctx, cancel := context.WithTimeout(bg, time.Second)
+			defer cancel()
+			if by == 1 {
+				_ = c.Ping(ctx)
+			} else {
+				_ = c.Write(ctx, websocket.MessageText, []byte("bystander"))
+			}
+			byEnd = r.S.Now()
+		})
+	}
+
 	// ---- the adversary
 	reads := adv != 7
 	if reads {
@@ -351,6 +380,14 @@ func runC09(r *Run) {
 				cls = ",took>6s"
 			}
 			r.Violate("call-not-bounded", sig+cls, "%s took %v (bound %v)", c09Call[call], t1-t0, bound)
+		}
+		if byStart != never {
+			// the bystander's own context ends after 1 s; the connection closing ends it sooner
+			if byEnd == never {
+				r.Violate("blocked-call-not-released", sig, "the bystander call started at %v was still blocked at %v (its context ended after 1 s; %s returned at %v)", byStart, r.S.Now(), c09Call[call], t1)
+			} else if byEnd > byStart+2*time.Second && byEnd > t1+time.Second {
+				r.Violate("blocked-call-not-released", sig, "the bystander call took %v with a 1 s context", byEnd-byStart)
+			}
 		}
 		for _, name := range sortedKeys(rets) {
 			if name == "closeread-ctx" {
